@@ -185,3 +185,4 @@ def check(ctx):
     ctx.import_rules("C18", r"^io-cancel/")
     shared.drops_do_not_block_unmasked(ctx)
     shared.cancel_registered_before_publish(ctx, only=r"may::park::|may::sleep::|may::sync::fast_blocking::")
+    shared.no_blocking_landing_pad(ctx)
